@@ -37,6 +37,9 @@ copy_string(struct String* dst, const struct String* src)
     }
 
     CHECK(dst->is_ref == 0);
+    // `src` may be a shallow view of `dst` (a struct copy of the owner, which
+    // is what a storage device's get() hands out): the bytes are in place.
+    const int shared = (dst->str == src->str);
     if (src->nbytes > dst->nbytes) {
         char* str = realloc(dst->str, src->nbytes);
         if (!str) {
@@ -49,8 +52,10 @@ copy_string(struct String* dst, const struct String* src)
 
     dst->nbytes = src->nbytes;
 
-    memset(dst->str, 0, dst->nbytes);        // NOLINT
-    memcpy(dst->str, src->str, src->nbytes); // NOLINT
+    if (!shared) {
+        memset(dst->str, 0, dst->nbytes);        // NOLINT
+        memcpy(dst->str, src->str, src->nbytes); // NOLINT
+    }
     // strings must be null terminated
     if (dst->nbytes > 0)
         dst->str[dst->nbytes - 1] = '\0';
@@ -327,6 +332,10 @@ storage_properties_copy(struct StorageProperties* dst,
       copy_string(&dst->external_metadata_json, &src->external_metadata_json));
     CHECK(copy_string(&dst->access_key_id, &src->access_key_id));
     CHECK(copy_string(&dst->secret_access_key, &src->secret_access_key));
+
+    // A shallow view of dst shares dst's dimension array: it is in place.
+    if (dst->acquisition_dimensions.data == src->acquisition_dimensions.data)
+        return 1;
 
     // 3. Copy the dimensions: release dst's own array, then duplicate src's
     if (dst->acquisition_dimensions.data) {
